@@ -80,7 +80,7 @@ func GenLogs(rng *rand.Rand, max int, exception, unknown bool) []Log {
 
 // ErrKinds / PanicKinds enumerate the scripted failure shapes.
 var (
-	ErrKinds   = []string{"rpc", "plain", "wrapped", "wrapped-rpc", "custom", "custom-kind"}
+	ErrKinds   = []string{"rpc", "plain", "wrapped", "wrapped-rpc", "custom", "custom-kind", "rpc-sentinel", "rpc-preset-id"}
 	PanicKinds = []string{"string", "error", "int", "rpc", "nil"}
 )
 
@@ -91,6 +91,11 @@ func GenErr(rng *rand.Rand, kind string) ErrSpec {
 	}
 	types := []string{"ValueError", "TypeError", "RuntimeError", "KeyError", "PermissionError", "MyAppError"}
 	e := ErrSpec{Kind: kind, Type: types[rng.IntN(len(types))], Msg: "scripted failure: " + msgPool[1+rng.IntN(len(msgPool)-1)]}
+	if kind == "rpc-sentinel" {
+		// a small fixed pool, so the same error VALUE comes back in many calls
+		e.Type = []string{"KeyError", "ValueError"}[rng.IntN(2)]
+		e.Msg = []string{"sentinel: not found", "sentinel: gone", "sentinel: busy"}[rng.IntN(3)]
+	}
 	if kind == "custom-kind" || (kind == "rpc" && rng.IntN(2) == 0) {
 		e.EKind = []string{"quota_exceeded", "not_found", "MethodNotImplementedError"}[rng.IntN(3)]
 	}
